@@ -313,6 +313,9 @@ def gen_inter(rng):
         victim = rng.randrange(ntasks)
         tasks[victim]["cancel_at"] = rng.randint(1, 50)
         spec["faults"] = [{"kind": "cancel", "task": victim}]
+    if rng.random() < 0.15:
+        spec["cfg"]["nest"] = [rng.getrandbits(16) for _ in range(ntasks - 1)]  # one thread, each task inside a gap of its predecessor
+        spec["cfg"]["policy"] = "nested"
     return spec
 
 
